@@ -230,7 +230,12 @@ pub fn read_v6_bundle<R: Read>(
     consensus_branch_id: BranchId,
     pool: ValuePool,
 ) -> io::Result<Option<orchard::Bundle<Authorized, ZatBalance>>> {
-    read_bundle(reader, bundle_version_for_branch(consensus_branch_id, pool))
+    // Only the bundle versions that `write_v6_bundle` can serialize are admitted here, so that
+    // every v6 transaction that parses can be written again: a non-empty bundle under a consensus
+    // branch whose bundle version is not a v6 one is rejected as invalid data.
+    let bundle_version = bundle_version_for_branch(consensus_branch_id, pool)
+        .filter(|bundle_version| check_v6_bundle_version(*bundle_version).is_ok());
+    read_bundle(reader, bundle_version)
 }
 
 pub fn read_value_commitment<R: Read>(mut reader: R) -> io::Result<ValueCommitment> {
